@@ -159,6 +159,13 @@ func (w *World) registerIntrinsics() {
 		e.tags = append(e.tags, tagCond{tag, a[1].(*Term)})
 		return nil
 	}
+	// verifIdealOnly: this path exists only through a coincidence of ideal values
+	// (e.g. two fresh random values sharing a prefix); it is explored and checked
+	// but cannot be sampled for native validation
+	I["@verifIdealOnly"] = func(e *Exec, fn *ssa.Function, a []Value) Value {
+		e.noSample = true
+		return nil
+	}
 	I["@verifThorough"] = func(e *Exec, fn *ssa.Function, a []Value) Value {
 		return mkBool(e.w.tier == "thorough")
 	}
